@@ -66,6 +66,12 @@ def setup_worker():
         p.log.append([k, p.stream.tell() if p.stream is not None else -1])
 
     p.pos = pos
+    p.jobs = {}
+
+    def nested(k):
+        p.jobs[k]()
+
+    p.nested = nested
     sys.modules["c37probe"] = p
     _S["probe"] = p
 
@@ -95,6 +101,12 @@ def gen_forms(rng, nmods, mod):
                 forms.append(["req", j, "*"])
             else:
                 forms.append(["req", j, rng.sample(NAMES, rng.randint(1, 2))])
+        elif r < 0.86 and nmods > 1:
+            # while this stream is being compiled, another module's stream (with that module's own reader) is
+            # read and evaluated from a compile-time form
+            j = rng.choice([m for m in range(nmods) if m != mod])
+            forms.append(["nested", j, [["def", rng.choice(["r1", "r2", "rn", "rnone"])] for _ in range(rng.randint(1, 2))] +
+                          [["plain", rng.randrange(100)]]])
         elif r < 0.93:
             forms.append(["plain", rng.randrange(100)])
         else:
@@ -132,6 +144,8 @@ def render_form(f, uid, tagdef):
     if k == "req":
         spec = "*" if f[2] == "*" else "[" + " ".join(f[2]) + "]"
         return f"(require {{MOD{f[1]}}} :readers {spec})"
+    if k == "nested":
+        return f"(eval-when-compile (hy.I.c37probe.nested {uid}))"
     if k == "plain":
         return f"(.append OUT (+ {f[1]} 1000))"
     if k == "cerr":
@@ -180,6 +194,7 @@ class Model:
         self.readers = {("own", i): {} for i in range(nmods)}
         self.tables = {i: {} for i in range(nmods)}
         self.ntag = 0
+        self.nested_jobs = {}
 
     def tag(self, mod, name):
         self.ntag += 1
@@ -194,6 +209,13 @@ class Model:
             uid = uid0 + fi
             k = f[0]
             tagdef = self.tag(mod, f[1]) if k in ("def", "defuse") else None
+            if k == "req" and f[2] != "*":
+                # a failing require must fail at its first name (nothing transferred before the failure): decided with
+                # the tables as they are when this form is reached
+                missing = [n for n in f[2] if n not in self.tables[f[1]]]
+                if missing:
+                    f = ["req", f[1], missing[:1] + [n for n in f[2] if n != missing[0]]]
+                    op["forms"][fi] = f
             f_src = render_form(f, uid, tagdef)
             if k == "def":
                 self.tables[mod][f[1]] = tagdef
@@ -224,6 +246,19 @@ class Model:
                     # `:readers *` enables every reader macro the requiring module has, in the current reader
                     R.update(self.tables[mod])
                 recs.append(["req", None, f_src])
+            elif k == "nested":
+                j = f[1]
+                texts = []
+                for g in f[2]:
+                    if g[0] == "def":
+                        t = self.tag(j, g[1])
+                        self.tables[j][g[1]] = t
+                        self.readers[("own", j)][g[1]] = t
+                        texts.append(render_def(g[1], t))
+                    else:
+                        texts.append(f"(.append OUT (+ {g[1]} 1000))")
+                self.nested_jobs[uid] = (j, "\n".join(texts) + "\n")
+                recs.append(["nested", None, f_src])
             elif k == "plain":
                 recs.append(["plain", f[1] + 1000, f_src])
             elif k == "cerr":
@@ -320,10 +355,24 @@ def execute(desc):
                 else:
                     Rm = {}
                     reader = HyReader()
-                forms = sanitize(op["forms"], model.tables)
+                forms = [list(f) for f in op["forms"]]
                 op2 = dict(op, forms=forms)
                 before_tables = {i: dict(t) for i, t in model.tables.items()}
+                model.nested_jobs = {}
                 recs, err = model.process(op2, Rm, uid)
+                if err is None and fe in ("lazy", "repl"):
+                    # require also runs at run time, i.e. after EVERY form of the stream has been compiled: whatever the
+                    # source module's table holds by then is transferred again
+                    for f in forms:
+                        if f[0] == "req":
+                            src_t = model.tables[f[1]]
+                            for n_ in (sorted(src_t) if f[2] == "*" else f[2]):
+                                if n_ in src_t:
+                                    model.tables[mi][n_] = src_t[n_]
+                probe.jobs.clear()
+                for k_, (j_, text_) in model.nested_jobs.items():
+                    probe.jobs[k_] = (lambda j=j_, text=text_: hy.eval(hy.read_many(text, reader=own[j]), module=mods[j]))
+                    faults["nested_stream_inside_compile"] = faults.get("nested_stream_inside_compile", 0) + 1
                 nform = len(forms)
                 srcs = [fmt(r[2]) for r in recs] + ([fmt(err[2])] if err else [])
                 uid += nform
